@@ -494,6 +494,14 @@ def theProg : Prog :=
   { classes := classTable.map fun kc => (kc.1, parseDef kc.1 kc.2),
     methods := methodTable.map fun kc => (kc.1, parseDef kc.1.1 kc.2) }
 
+/-- the program with the constructor of `cls` replaced by (the parse of) an edited definition (for sensitivity examples) -/
+def Prog.withClass (pg : Prog) (cls : String) (cd : ClassDef) : Prog :=
+  { pg with classes := (cls, parseDef cls cd) :: pg.classes }
+
+/-- the program with method `meth` of `cls` replaced by (the parse of) an edited definition -/
+def Prog.withMethod (pg : Prog) (cls meth : String) (cd : ClassDef) : Prog :=
+  { pg with methods := ((cls, meth), parseDef cls cd) :: pg.methods }
+
 /-! ### expressions -/
 
 /-- `v.f` (the attribute name already mangled) -/
@@ -830,9 +838,14 @@ def callMethod (pg : Prog) (c : Ctx) (depth : Nat) (cls meth : String) (self : V
     | none => none
   | none => none
 
-/-- attribute `f` (as written in the text of class `cls`) of the heap object at `a` -/
-def World.attr (w : World) (cls : String) (a : Nat) (f : String) : Option Val :=
-  (w.heap[a]?).bind fun o => o.fields.lookup (mangle cls f)
+/-- attribute `f` (mangled name) of the heap object at `a` -/
+def World.getAttr (w : World) (a : Nat) (f : String) : Option Val := (w.heap[a]?).bind fun o => o.fields.lookup f
+
+/-- the world in which attribute `f` of the object at `a` is `v` -/
+def World.setAttr (w : World) (a : Nat) (f : String) (v : Val) : World :=
+  match w.heap[a]? with
+  | some o => { w with heap := w.heap.set a { o with fields := setField o.fields f v } }
+  | none => w
 
 /-- the number of heap objects of a class -/
 def World.count (w : World) (cls : String) : Nat := (w.heap.filter fun o => o.cls == cls).length
